@@ -13,6 +13,14 @@ def receivers():
     r["int32"] = (INT32, Int(5), Var("self"))
     r["string"] = (STRING, Str("abc"), Call("string_len", Var("self")))
     r["bool"] = (BOOL, Bool(True), If(Var("self"), Int(1), Int(0)))
+    # literals of the other numeric types, incl. a float whose value is integral (Go prints 4.0 as 4)
+    r["float64"] = (F64, Float(4, 1), If(Bin(">", Var("self"), Float(3, 1)), Int(6), Int(2)))
+    r["float64-frac"] = (F64, Float(5, 2), If(Bin(">", Var("self"), Float(3, 1)), Int(6), Int(2)))
+    f32 = lambda n, d: dict(Float(n, d, "float32"), suffix=True)
+    r["float32"] = (F32, f32(8, 1), If(Bin(">", Var("self"), f32(3, 1)), Int(6), Int(2)))
+    r["int64"] = (INT64, Int(9, "int64", suffix=True), If(Bin(">", Var("self"), Int(3, "int64", suffix=True)), Int(8), Int(2)))
+    r["uint8"] = (UINT8, Int(200, "uint8", suffix=True), If(Bin(">", Var("self"), Int(100, "uint8", suffix=True)), Int(3), Int(2)))
+    r["int8"] = (INT8, Int(5, "int8", suffix=True), If(Bin("<", Var("self"), Int(9, "int8", suffix=True)), Int(4), Int(2)))
     r["S"] = (S, Struct(S, [("a", Int(7)), ("b", Bool(False))]), Field(Var("self"), "a"))
     r["E"] = (E, Ctor(E, "B", Int(9)), Match(Var("self"), [(PCtor("A"), Int(0)), (PCtor("B", PVar("x")), Var("x"))]))
     r["Box[int32]"] = (BOXI, Struct(BOXI, [("v", Int(11))]), Field(Var("self"), "v"))
@@ -33,7 +41,9 @@ def programs(tier):
     for rn, (ty, val, w) in R.items():
         tk = tykey(ty).lstrip("%")
         # ---- inherent: x.im(a) and T::im(x, a)
-        p = Program("c17_inh_" + rn.replace("[", "_").replace("]", ""))
+        if rn.startswith(("float", "int64", "uint8", "int8")):
+            pass
+        p = Program("c17_inh_" + rn.replace("[", "_").replace("]", "").replace("-", "_"))
         decls(p)
         p.impl(None, ty, [("im", [("self", ty), ("a", INT32)], INT32, Bin("+", Bin("*", w, Int(10)), Var("a")))])
         c1 = Call(f"inherent#{tk}#im", Var("v"), Int(3)); c1["form"] = "method"
@@ -43,7 +53,7 @@ def programs(tier):
         p.fn("main", [], UNIT, Block([Let("v", val, ty=ty)] + forms, Unit))
         out.append({"prog": p, "family": "c17", "ident": f"c17:inherent:{rn}"})
         # ---- trait: concrete UFCS, bounded generic by method and by UFCS, dyn (let coercion and argument coercion)
-        p = Program("c17_trait_" + rn.replace("[", "_").replace("]", ""))
+        p = Program("c17_trait_" + rn.replace("[", "_").replace("]", "").replace("-", "_"))
         decls(p)
         p.impl("Tr", ty, [("tm", [("self", ty), ("a", INT32)], INT32, Bin("+", Bin("*", w, Int(100)), Var("a")))])
         # a second impl on another type so that dispatch has something to get wrong
@@ -68,8 +78,8 @@ def programs(tier):
         ], Unit))
         out.append({"prog": p, "family": "c17", "ident": f"c17:trait:{rn}"})
         # ---- literal coerced to dyn directly (no intermediate variable)
-        if rn in ("int32", "string", "bool"):
-            p = Program("c17_dynlit_" + rn)
+        if rn in ("int32", "string", "bool", "float64", "float64-frac", "float32", "int64", "uint8", "int8"):
+            p = Program("c17_dynlit_" + rn.replace("-", "_"))
             decls(p)
             p.impl("Tr", ty, [("tm", [("self", ty), ("a", INT32)], INT32, Bin("+", Bin("*", w, Int(100)), Var("a")))])
             p.fn("via_dyn", [("d", TDyn("Tr"))], INT32, TCall("Tr", "tm", Var("d"), Int(3)))
